@@ -234,6 +234,9 @@ func (c *Check[C]) Execute(t *testing.T) {
 	_ = flag.Set("rapid.checks", strconv.Itoa(requests))
 	_ = flag.Set("rapid.seed", strconv.FormatUint(seedFor(c.Name), 10))
 	_ = flag.Set("rapid.nofailfile", "true")
+	if st := os.Getenv("VERIF_SHRINKTIME"); st != "" {
+		_ = flag.Set("rapid.shrinktime", st) // checks whose cases are slow when they fail (hanging programs) bound their shrinking
+	}
 	rapid.Check(t, func(rt *rapid.T) {
 		v := c.Gen(rt)
 		if err := one(v, false); err != nil {
